@@ -299,6 +299,15 @@ def check(prop, tier, nseeds=None, budget=None):
     t0 = time.time()
     results, skipped = sweep(prop, tier, seeds, budget,
                              block=getattr(mod, 'BLOCK', 25))
+    # a worker which died or hung takes the rest of its block with it, and
+    # an overloaded machine may make a run miss its wall clock limit: every
+    # such seed gets a second chance, alone in a fresh worker
+    bad = [r['seed'] for r in results if r['status'] == 'harness_error']
+    if bad and len(bad) <= 60:
+        again, _ = sweep(prop, tier, bad, 600, block=1, per_run_timeout=300)
+        redo = {r['seed']: r for r in again}
+        results = [redo.get(r['seed'], r) if r['status'] == 'harness_error'
+                   else r for r in results]
     wall = time.time() - t0
 
     known  = load_known()
